@@ -70,6 +70,18 @@ pub fn generate(a: &Args) {
         }
     }
     mcfgs.retain(|c| c.nrows > 0);
+    // sparse shapes with column weight 3 on which a girth of 6 or 8 IS achievable (the dense shapes above mostly fail under a girth
+    // constraint, and failures are not judged): many candidate columns are tried per column
+    for &(nr, nc, wr, wc) in &[(9usize, 12usize, 4usize, 3usize), (12, 16, 4, 3), (16, 20, 5, 3), (8, 10, 5, 3)] {
+        for uniform in [false, true] {
+            for &mg in &[6usize, 8] {
+                if !th && (mcfgs.len() + a.seed as usize) % 2 == 0 { mcfgs.push(MknConfig { nrows: 0, ncols: 0, wr: 0, wc: 0, backtrack_cols: 0, backtrack_trials: 0, min_girth: None, girth_trials: 0, fill_policy: FillPolicy::Random }); continue; }
+                mcfgs.push(MknConfig { nrows: nr, ncols: nc, wr, wc, backtrack_cols: 1, backtrack_trials: 5, min_girth: Some(mg), girth_trials: 200,
+                    fill_policy: if uniform { FillPolicy::Uniform } else { FillPolicy::Random } });
+            }
+        }
+    }
+    mcfgs.retain(|c| c.nrows > 0);
     // over-subscribed configurations (ncols * wc > nrows * wr): every seed must FAIL; a matrix returned here has a row above wr
     for &(nr, nc, wc) in &[(4usize, 9usize, 2usize), (3, 4, 2), (6, 12, 3), (5, 7, 2), (8, 12, 3)] {
         let exact = (nc * wc + nr - 1) / nr;
